@@ -308,6 +308,16 @@ VC_ENSURES(VC_RET == ((parser->error_flags == BINSON_ERROR_NONE) ? parser->curre
 
 bool binson_parser_field(binson_parser *parser,
                          const char *field_name)
+VC_REQUIRES(VC_PTRS(parser) && VC_INV(parser))
+VC_REQUIRES(vc_cstr_max <= VC_MAX_NAME && VC_FRESH(field_name, vc_cstr_max + 1) && field_name[vc_cstr_max] == 0)
+VC_ASSIGNS(VC_NAV_FRAME(parser), vc_memcmp_result, vc_memcmp_n, vc_memcmp_a, vc_memcmp_b, vc_memcmp_idx, vc_strlen_result)
+VC_ENSURES(VC_SAME_CONFIG(parser) && parser->cb == VC_OLD(parser->cb))
+VC_ENSURES(VC_INV(parser))                                                                         /*@ inv-preserved */
+VC_ENSURES(VC_RET ==> parser->error_flags == BINSON_ERROR_NONE)                                    /*@ true-no-error */
+VC_ENSURES(VC_OLD(parser->error_flags) != BINSON_ERROR_NONE ==>
+           (!VC_RET && parser->error_flags != BINSON_ERROR_NONE &&
+            parser->buffer_used == VC_OLD(parser->buffer_used) && parser->depth == VC_OLD(parser->depth) &&
+            parser->current_state == VC_OLD(parser->current_state)))                               /*@ latch */
 {
     if (NULL != field_name) {
         return binson_parser_field_with_length(parser,
@@ -318,6 +328,19 @@ bool binson_parser_field(binson_parser *parser,
 }
 
 bool binson_parser_field_with_length(binson_parser *parser, const char *field_name, size_t length)
+VC_REQUIRES(VC_PTRS(parser) && VC_INV(parser))
+VC_REQUIRES(length <= VC_MAX_NAME && VC_FRESH(field_name, length))
+VC_ASSIGNS(VC_NAV_FRAME(parser), vc_memcmp_result, vc_memcmp_n, vc_memcmp_a, vc_memcmp_b, vc_memcmp_idx)
+VC_ENSURES(VC_SAME_CONFIG(parser) && parser->cb == VC_OLD(parser->cb))
+VC_ENSURES(VC_INV(parser))                                                                         /*@ inv-preserved */
+VC_ENSURES(VC_RET ==> parser->error_flags == BINSON_ERROR_NONE)                                    /*@ true-no-error */
+VC_ENSURES(VC_OLD(parser->error_flags) != BINSON_ERROR_NONE ==>
+           (!VC_RET && parser->error_flags != BINSON_ERROR_NONE &&
+            parser->buffer_used == VC_OLD(parser->buffer_used) && parser->depth == VC_OLD(parser->depth) &&
+            parser->current_state == VC_OLD(parser->current_state)))                               /*@ latch */
+VC_ENSURES(VC_RET ==> (vc_memcmp_result == 0 && parser->current_state->current_name.bsize == length &&
+                       vc_memcmp_b == parser->current_state->current_name.bptr &&
+                       vc_memcmp_a == (const uint8_t *) field_name))                               /*@ lookup-true-means-equal-name */
 {
     if (NULL == parser) {
         return false;
@@ -333,7 +356,15 @@ bool binson_parser_field_with_length(binson_parser *parser, const char *field_na
     scan_name.bsize = length;
     int r;
 
-    while (_advance_parsing(parser, BINSON_ADVANCE_VALUE, &scan_name)) {
+    while (_advance_parsing(parser, BINSON_ADVANCE_VALUE, &scan_name))
+    VC_LOOP_ASSIGNS(r, VC_NAV_FRAME(parser), vc_memcmp_result, vc_memcmp_n, vc_memcmp_a, vc_memcmp_b, vc_memcmp_idx)
+    VC_LOOP_INVARIANT(VC_INV_(parser, VC_EQ_PLAIN))
+    VC_LOOP_INVARIANT(__CPROVER_loop_entry(parser->error_flags) != BINSON_ERROR_NONE ==>
+                      (parser->error_flags == __CPROVER_loop_entry(parser->error_flags) &&
+                       parser->buffer_used == __CPROVER_loop_entry(parser->buffer_used) &&
+                       parser->depth == __CPROVER_loop_entry(parser->depth) &&
+                       parser->current_state == __CPROVER_loop_entry(parser->current_state)))
+    {
         r = _cmp_name(&scan_name, &parser->current_state->current_name);
         if (0 == r) {
             return true;
@@ -350,6 +381,17 @@ bool binson_parser_field_with_length(binson_parser *parser, const char *field_na
 bool binson_parser_field_ensure(binson_parser *parser,
                                const char *field_name,
                                binson_type field_type)
+VC_REQUIRES(VC_PTRS(parser) && VC_INV(parser))
+VC_REQUIRES(vc_cstr_max <= VC_MAX_NAME && VC_FRESH(field_name, vc_cstr_max + 1) && field_name[vc_cstr_max] == 0)
+VC_ASSIGNS(VC_NAV_FRAME(parser), vc_memcmp_result, vc_memcmp_n, vc_memcmp_a, vc_memcmp_b, vc_memcmp_idx, vc_strlen_result)
+VC_ENSURES(VC_SAME_CONFIG(parser) && parser->cb == VC_OLD(parser->cb))
+VC_ENSURES(VC_INV(parser))                                                                         /*@ inv-preserved */
+VC_ENSURES(VC_RET ==> parser->error_flags == BINSON_ERROR_NONE)                                    /*@ true-no-error */
+VC_ENSURES(VC_OLD(parser->error_flags) != BINSON_ERROR_NONE ==>
+           (!VC_RET && parser->error_flags != BINSON_ERROR_NONE &&
+            parser->buffer_used == VC_OLD(parser->buffer_used) && parser->depth == VC_OLD(parser->depth) &&
+            parser->current_state == VC_OLD(parser->current_state)))                               /*@ latch */
+VC_ENSURES(VC_RET ==> parser->current_state->current_type == field_type)                          /*@ ensure-type */
 {
     if (NULL != field_name) {
         return binson_parser_field_ensure_with_length(parser,
@@ -364,6 +406,17 @@ bool binson_parser_field_ensure_with_length(binson_parser *parser,
                                             const char *field_name,
                                             size_t length,
                                             binson_type field_type)
+VC_REQUIRES(VC_PTRS(parser) && VC_INV(parser))
+VC_REQUIRES(length <= VC_MAX_NAME && VC_FRESH(field_name, length))
+VC_ASSIGNS(VC_NAV_FRAME(parser), vc_memcmp_result, vc_memcmp_n, vc_memcmp_a, vc_memcmp_b, vc_memcmp_idx)
+VC_ENSURES(VC_SAME_CONFIG(parser) && parser->cb == VC_OLD(parser->cb))
+VC_ENSURES(VC_INV(parser))                                                                         /*@ inv-preserved */
+VC_ENSURES(VC_RET ==> parser->error_flags == BINSON_ERROR_NONE)                                    /*@ true-no-error */
+VC_ENSURES(VC_OLD(parser->error_flags) != BINSON_ERROR_NONE ==>
+           (!VC_RET && parser->error_flags != BINSON_ERROR_NONE &&
+            parser->buffer_used == VC_OLD(parser->buffer_used) && parser->depth == VC_OLD(parser->depth) &&
+            parser->current_state == VC_OLD(parser->current_state)))                               /*@ latch */
+VC_ENSURES(VC_RET ==> parser->current_state->current_type == field_type)                          /*@ ensure-type */
 {
 
     if ((NULL != parser) &&
@@ -522,6 +575,26 @@ VC_ENSURES((parser->error_flags == BINSON_ERROR_NONE &&
 }
 
 bool binson_parser_get_raw(binson_parser *parser, bbuf *raw)
+VC_REQUIRES(VC_PTRS(parser) && VC_INV(parser) && VC_FRESH(raw, sizeof(*raw)))
+VC_ASSIGNS(VC_NAV_FRAME(parser), raw->bptr, raw->bsize)
+VC_ENSURES(VC_SAME_CONFIG(parser) && parser->cb == VC_OLD(parser->cb))
+VC_ENSURES(VC_INV(parser))                                                                         /*@ inv-preserved */
+VC_ENSURES(VC_RET ==> parser->error_flags == BINSON_ERROR_NONE)                                    /*@ true-no-error */
+VC_ENSURES(VC_OLD(parser->error_flags) != BINSON_ERROR_NONE ==>
+           (!VC_RET && parser->error_flags != BINSON_ERROR_NONE &&
+            parser->buffer_used == VC_OLD(parser->buffer_used) && parser->depth == VC_OLD(parser->depth) &&
+            parser->current_state == VC_OLD(parser->current_state)))                               /*@ latch */
+VC_ENSURES(VC_OLD(parser->error_flags) != BINSON_ERROR_NONE ==>
+           (raw->bptr == VC_OLD(raw->bptr) && raw->bsize == VC_OLD(raw->bsize)))                  /*@ raw-untouched-on-error */
+VC_ENSURES((VC_OLD(parser->error_flags) == BINSON_ERROR_NONE &&
+            VC_OLD(parser->current_state->current_type) != BINSON_TYPE_OBJECT &&
+            VC_OLD(parser->current_state->current_type) != BINSON_TYPE_ARRAY) ==>
+           (!VC_RET && parser->error_flags == BINSON_ERROR_NONE &&
+            parser->buffer_used == VC_OLD(parser->buffer_used) && parser->depth == VC_OLD(parser->depth) &&
+            parser->current_state == VC_OLD(parser->current_state)))                               /*@ raw-noncontainer */
+VC_ENSURES(VC_RET ==> (raw->bptr == parser->buffer + VC_OLD(parser->buffer_used) &&
+                       raw->bsize == parser->buffer_used - VC_OLD(parser->buffer_used) &&
+                       VC_IN_BUF(parser, *raw)))                                                   /*@ raw-in-buffer */
 {
     if (!((NULL != parser) &&
         (BINSON_ERROR_NONE == parser->error_flags) &&
@@ -635,6 +708,17 @@ VC_ENSURES((parser->error_flags == BINSON_ERROR_NONE &&
 }
 
 bool binson_parser_string_equals(binson_parser *parser, const char *pstr)
+VC_REQUIRES(VC_PTRS(parser) && VC_INV(parser))
+VC_REQUIRES(vc_cstr_max <= VC_MAX_NAME && VC_FRESH(pstr, vc_cstr_max + 1) && pstr[vc_cstr_max] == 0)
+VC_ASSIGNS(vc_memcmp_result, vc_memcmp_n, vc_memcmp_a, vc_memcmp_b, vc_memcmp_idx, vc_strlen_result)
+VC_ENSURES((parser->error_flags != BINSON_ERROR_NONE ||
+            parser->current_state->current_type != BINSON_TYPE_STRING) ==> !VC_RET)               /*@ getter-neutral */
+VC_ENSURES((parser->error_flags == BINSON_ERROR_NONE &&
+            parser->current_state->current_type == BINSON_TYPE_STRING) ==>
+           (VC_RET == (vc_memcmp_result == 0 &&
+                       parser->current_state->current_value.string_value.bsize == vc_strlen_result) &&
+            vc_memcmp_a == parser->current_state->current_value.string_value.bptr &&
+            vc_memcmp_b == (const uint8_t *) pstr))                                                /*@ string-equals-iff */
 {
     bbuf cmp;
     if (!((NULL != parser) &&
@@ -1008,6 +1092,22 @@ VC_ASSIGNS(*value)
 }
 
 static int _cmp_name(bbuf *a, bbuf *b)
+VC_REQUIRES(VC_FRESH(a, sizeof(*a)) && VC_FRESH(b, sizeof(*b)))
+VC_REQUIRES(a->bsize <= VC_MAX_NAME && b->bsize <= VC_MAX_NAME)
+VC_REQUIRES((a->bsize == 0 || b->bsize == 0) ||
+            (VC_FRESH(a->bptr, a->bsize) && VC_FRESH(b->bptr, b->bsize)))
+VC_ASSIGNS(vc_memcmp_result, vc_memcmp_n, vc_memcmp_a, vc_memcmp_b, vc_memcmp_idx)
+VC_ENSURES(vc_memcmp_n == ((a->bsize < b->bsize) ? a->bsize : b->bsize) &&
+           vc_memcmp_a == a->bptr && vc_memcmp_b == b->bptr)                                       /*@ cmp-common-prefix */
+VC_ENSURES((VC_RET == 0) == (vc_memcmp_result == 0 && a->bsize == b->bsize))                       /*@ cmp-equal-iff */
+VC_ENSURES((VC_RET < 0) == (vc_memcmp_result < 0 || (vc_memcmp_result == 0 && a->bsize < b->bsize))) /*@ cmp-less-iff */
+VC_ENSURES((VC_RET == 0 && vc_j < a->bsize) ==> a->bptr[vc_j] == b->bptr[vc_j])                    /*@ cmp-equal-bytes */
+VC_ENSURES((VC_RET < 0 && vc_memcmp_result != 0) ==>
+           (vc_memcmp_idx < a->bsize && vc_memcmp_idx < b->bsize &&
+            a->bptr[vc_memcmp_idx] < b->bptr[vc_memcmp_idx]))                                      /*@ cmp-unsigned-bytes */
+VC_ENSURES((VC_RET > 0 && vc_memcmp_result != 0) ==>
+           (vc_memcmp_idx < a->bsize && vc_memcmp_idx < b->bsize &&
+            a->bptr[vc_memcmp_idx] > b->bptr[vc_memcmp_idx]))                                      /*@ cmp-unsigned-bytes */
 {
     int r = memcmp(a->bptr,
                    b->bptr,
@@ -1017,6 +1117,48 @@ static int _cmp_name(bbuf *a, bbuf *b)
 }
 
 static uint16_t _process_one(binson_parser *parser, bbuf *consumed, size_t *bytes_consumed)
+VC_REQUIRES(VC_FRESH(parser, sizeof(*parser)) && VC_FRESH(consumed, sizeof(*consumed)) &&
+            VC_FRESH(bytes_consumed, sizeof(*bytes_consumed)))
+VC_REQUIRES(parser->buffer_size <= VC_MAX_BUF && VC_FRESH(parser->buffer, parser->buffer_size))
+VC_REQUIRES(parser->buffer_used < parser->buffer_size && parser->error_flags == BINSON_ERROR_NONE)
+VC_REQUIRES(VC_PTR_EQ(consumed->bptr, parser->buffer + parser->buffer_used))
+VC_ASSIGNS(parser->buffer_used, parser->error_flags, consumed->bptr, consumed->bsize, *bytes_consumed)
+VC_ENSURES(VC_IS_BOOL(VC_B) ==>
+           (VC_RET == VC_NS_BOOLEAN && parser->buffer_used == VC_P + 1 && *bytes_consumed == 1 &&
+            consumed->bptr == parser->buffer + VC_P && parser->error_flags == BINSON_ERROR_NONE))  /*@ token-boolean */
+VC_ENSURES((VC_B == 0x46 && VC_R >= 8) ==>
+           (VC_RET == VC_NS_DOUBLE && parser->buffer_used == VC_P + 9 && *bytes_consumed == 9 &&
+            consumed->bptr == parser->buffer + VC_P + 1 && consumed->bsize == 8 &&
+            parser->error_flags == BINSON_ERROR_NONE))                                             /*@ token-double */
+VC_ENSURES((VC_B == 0x46 && VC_R < 8) ==>
+           (VC_RET == VC_NS_ERROR && parser->error_flags == BINSON_ERROR_RANGE))                   /*@ token-double-truncated */
+VC_ENSURES((VC_IS_INT(VC_B) && VC_R >= VC_TOK_W(VC_B)) ==>
+           (VC_RET == VC_NS_INTEGER && parser->buffer_used == VC_P + 1 + VC_TOK_W(VC_B) &&
+            *bytes_consumed == 1 + VC_TOK_W(VC_B) && consumed->bptr == parser->buffer + VC_P + 1 &&
+            consumed->bsize == VC_TOK_W(VC_B) && parser->error_flags == BINSON_ERROR_NONE))        /*@ token-integer */
+VC_ENSURES((VC_IS_INT(VC_B) && VC_R < VC_TOK_W(VC_B)) ==>
+           (VC_RET == VC_NS_ERROR && parser->error_flags == BINSON_ERROR_RANGE))                   /*@ token-integer-truncated */
+VC_ENSURES((VC_IS_BLOB(VC_B) && VC_R < VC_TOK_W(VC_B)) ==>
+           (VC_RET == VC_NS_ERROR && parser->error_flags == BINSON_ERROR_RANGE))                   /*@ len-truncated */
+VC_ENSURES((VC_IS_BLOB(VC_B) && VC_R >= VC_TOK_W(VC_B) &&
+            (VC_LEN < 0 || VC_WIDTH(VC_LEN) != (int) VC_TOK_W(VC_B))) ==>
+           (VC_RET == VC_NS_ERROR && parser->error_flags == BINSON_ERROR_FORMAT))                  /*@ len-range-and-minimal */
+VC_ENSURES((VC_IS_BLOB(VC_B) && VC_R >= VC_TOK_W(VC_B) && VC_LEN >= 0 &&
+            VC_WIDTH(VC_LEN) == (int) VC_TOK_W(VC_B) &&
+            (uint64_t) VC_LEN > (uint64_t) (VC_R - VC_TOK_W(VC_B))) ==>
+           (VC_RET == VC_NS_ERROR && parser->error_flags == BINSON_ERROR_RANGE))                   /*@ len-fits */
+VC_ENSURES((VC_IS_BLOB(VC_B) && VC_R >= VC_TOK_W(VC_B) && VC_LEN >= 0 &&
+            VC_WIDTH(VC_LEN) == (int) VC_TOK_W(VC_B) &&
+            (uint64_t) VC_LEN <= (uint64_t) (VC_R - VC_TOK_W(VC_B))) ==>
+           (VC_RET == (VC_IS_STRLEN(VC_B) ? VC_NS_STRING : VC_NS_BYTES) &&
+            parser->buffer_used == VC_P + 1 + VC_TOK_W(VC_B) + (size_t) VC_LEN &&
+            *bytes_consumed == 1 + VC_TOK_W(VC_B) + (size_t) VC_LEN &&
+            consumed->bptr == parser->buffer + VC_P + 1 + VC_TOK_W(VC_B) &&
+            consumed->bsize == (size_t) VC_LEN && parser->error_flags == BINSON_ERROR_NONE))       /*@ token-extent */
+VC_ENSURES(!(VC_IS_BOOL(VC_B) || VC_B == 0x46 || VC_IS_INT(VC_B) || VC_IS_BLOB(VC_B)) ==>
+           (VC_RET == VC_NS_ERROR && parser->error_flags == BINSON_ERROR_FORMAT))                  /*@ unknown-byte-format */
+VC_ENSURES(VC_RET != VC_NS_ERROR ==> (parser->buffer_used <= parser->buffer_size &&
+                                      parser->buffer_used == VC_P + *bytes_consumed))              /*@ cursor-advance-exact */
 {
     size_t to_consume = 1;
     int64_t length_value;
